@@ -10,8 +10,9 @@
    join / begin an own transaction / run without / fail, by mode and by whether a
    transaction is current.  okw w = the coordinator answers every request with ok and the
    context is never cancelled. *)
-From Coq Require Import List NArith Bool.
+From Coq Require Import List NArith Bool String.
 From SeataV Require Import Tm.TmModel Gen.TmShape Tm.TmProofs Tm.TmTreeProofs Tm.TmGo.
+From SeataV Require Import Base.Bytes Tm.Carrier Tm.CarrierProofs.
 Import ListNotations.
 Open Scope N_scope.
 
@@ -75,4 +76,27 @@ Example C07_nonvacuous_tree :
                                      (init_world [] ROk None) no_ctx in
   reqs_of (project es) = [QBegin 1; QBegin 2; QRollback 2; QBegin 6; QCommit 3; QCommit 1] /\
   sees_of (project es) = [(1, 1); (2, 2); (3, 2); (5, 0); (6, 3)] /\ res = RNilC /\ v' = no_ctx.
+Proof. vm_compute. auto. Qed.
+
+(* ---- the xid through the gRPC, gin and dubbo integrations (Tm/Carrier.v: the key the
+   sender writes, the transport's key normalisation, the receiver's lookups) *)
+
+(* a header set under key k arrives as the callee's xid exactly when k is an accepted
+   spelling, and then byte for byte; otherwise the callee sees no transaction *)
+Theorem C07_carrier_single : forall c k x, carried c [(k, x)] = if accepted c k then x else [].
+Proof. exact carried_single. Qed.
+
+(* sender half followed by receiver half is the identity on every xid *)
+Theorem C07_carrier_roundtrip : forall c x, carried c (inject c x) = x.
+Proof. exact carrier_roundtrip. Qed.
+
+(* every upper/lower-case spelling of TX_XID is accepted by the gRPC and gin receivers *)
+Theorem C07_carrier_case_spellings : forall k, lower k = k_tx_xid ->
+  accepted Grpc k = true /\ accepted Gin k = true.
+Proof. exact case_spellings_accepted. Qed.
+
+Example C07_carrier_nonvacuous :
+  accepted Dubbo (bytes_of_string "seata_xid") = true /\ accepted Gin (bytes_of_string "tX_xId") = true /\
+  accepted Grpc (bytes_of_string "TX-XID") = false /\
+  carried Gin [(bytes_of_string "tX_xId", bytes_of_string "10.0.0.1:8091:42")] = bytes_of_string "10.0.0.1:8091:42".
 Proof. vm_compute. auto. Qed.
